@@ -235,7 +235,10 @@ where
                     { verif_outcome = 3; }
                     // The dump procedure is already running, but this does not guarantee that the dump for the desired blob will be made in it. 
                     // Therefore, we defer the dump procedure once more
-                    self.deferred_index_dump_info = Some(Box::new(DeferredEventData::new()));
+                    let deferred = DeferredEventData::new();
+                    // The fired deadline has been reset: without a new one the worker would wait for the next message
+                    self.update_deadline(deferred.next_deadline(min, max));
+                    self.deferred_index_dump_info = Some(Box::new(deferred));
                 }
             } else {
                 #[cfg(pearl_verif)]
